@@ -93,7 +93,7 @@ def run_config(chk, tier, cfgname):
             ok = bool(rets) and all(sl[0].bb in dom[r] and lk[0].bb in dom[r] for r in rets)
         chk.inst("assume_init-registers-once", fn, ok,
                  detail="assume_init must set the live flag and link the block exactly once on every normal path")
-    typestate.apply(chk, "link-counts-once", "link")
+    typestate.apply(chk, "link-counts-once", "link", aspects=("credits", "credits-over", "credits-under", "safety"))
     # ---- partial initialisation
     rules_builder.slice_builder_unwind(chk, prog)
     a = prog.adts.get("slice::GcSliceWithHeaderBuilder")
